@@ -9,6 +9,7 @@ import (
 	"net/http"
 	"net/url"
 	"sort"
+	"strconv"
 	"strings"
 
 	"github.com/getkin/kin-openapi/openapi3"
@@ -111,14 +112,29 @@ func ValidateRequest(ctx context.Context, input *RequestValidationInput) error {
 // appendToQueryValues adds to query parameters each value in the provided slice
 func appendToQueryValues[T any](q url.Values, parameterName string, v []T) {
 	for _, i := range v {
-		q.Add(parameterName, fmt.Sprint(i))
+		q.Add(parameterName, formatDefault(i))
 	}
+}
+
+// formatDefault writes a default value the way the parameter decoders read it back:
+// a number in plain decimal notation (fmt.Sprint(1000000.0) is "1e+06", which is not an integer
+// to strconv.ParseInt), and a list as its comma-separated items.
+func formatDefault(value any) string {
+	switch v := value.(type) {
+	case float64:
+		return strconv.FormatFloat(v, 'f', -1, 64)
+	case float32:
+		return strconv.FormatFloat(float64(v), 'f', -1, 32)
+	case []any:
+		return joinValues(v, ",")
+	}
+	return fmt.Sprint(value)
 }
 
 func joinValues(values []any, sep string) string {
 	strValues := make([]string, 0, len(values))
 	for _, v := range values {
-		strValues = append(strValues, fmt.Sprint(v))
+		strValues = append(strValues, formatDefault(v))
 	}
 	return strings.Join(strValues, sep)
 }
@@ -133,7 +149,7 @@ func populateDefaultQueryParameters(q url.Values, parameterName string, value an
 			q.Add(parameterName, joinValues(t, ","))
 		}
 	default:
-		q.Add(parameterName, fmt.Sprint(value))
+		q.Add(parameterName, formatDefault(value))
 	}
 }
 
@@ -197,11 +213,11 @@ func ValidateParameter(ctx context.Context, input *RequestValidationInput, param
 				populateDefaultQueryParameters(q, parameter.Name, value, sm.Explode)
 				req.URL.RawQuery = q.Encode()
 			case openapi3.ParameterInHeader:
-				req.Header.Add(parameter.Name, fmt.Sprint(value))
+				req.Header.Add(parameter.Name, formatDefault(value))
 			case openapi3.ParameterInCookie:
 				req.AddCookie(&http.Cookie{
 					Name:  parameter.Name,
-					Value: fmt.Sprint(value),
+					Value: formatDefault(value),
 				})
 			}
 		}
